@@ -58,6 +58,10 @@ def canon(obj, depth: int = 0):
             c = obj.bins.constituents
             return ["binned", list(obj.dims), list(obj.shape), canon(c["begin"], depth + 1),
                     canon(c["end"], depth + 1), c["dim"], canon(c["data"], depth + 1)]
+        if obj.ndim > 1 and list(obj.dims) != sorted(obj.dims):
+            # dimension order is layout, not content (and in places depends on set iteration
+            # order inside the library, i.e. on PYTHONHASHSEED): compare in sorted-dims layout
+            obj = obj.transpose(sorted(obj.dims)).copy()
         out = ["var", list(obj.dims), list(obj.shape), str(obj.dtype),
                None if obj.unit is None else repr(obj.unit)]
         try:
